@@ -31,6 +31,16 @@ def c17(pid, tier, seed, selftest=False):
     tpl, tres = st.get_templates(pid)
     rep.add_model("terms", tres, "byte-layout templates (EncodedPub, LockedKey)")
     thorough = tier == "thorough"
+    # at the tool (needs nothing of the tool's private interfaces): a keyring entry holding the sender's key bytes under a
+    # checksum that does not match is not a usable key and names nobody
+    import checks_cli
+    w17 = checks_cli.World(pid, tpl, seed)
+    cfg17 = [{"cmd": "decrypt", "cause": "none", "prior": "absent", "inp": inp, "outp": outp, "kr": "opt", "long": lng, "alias": lng, "sender": snd}
+             for snd in ("badsum", "last") for inp in ("file", "stdin") for outp in ("file", "stdout") for lng in (False, True)]
+    checks_cli.run_configs(rep, pid, "tool", w17, cfg17, ["C17_"])
+    if rep.violations:
+        # a violation seen at the tool stands on its own; the parser-level part below may not even build against such a tree
+        return rep.finish()
     n = 7 if thorough else 6
     res = run_tlc(pid, "kr-mc", "Keyring", kr_cfg(n, False, KR_INV + ["Emit"]), workers=1, timeout=1200)
     rep.add_model("kr-mc", res, "parser model vs contract for all token sequences up to %d lines; emits them" % n)
@@ -141,4 +151,8 @@ def c15(pid, tier, seed, selftest=False):
     rep.sample(sc[0])
     rep.sample(sc[-1])
     run_oneshot(rep, pid, "lock", "kr", sc, tpl, seed, "Trace_Keyring", nproc=16, only_prefixes=["C15_"])
+    # at the tool: a password that is not the one the key is locked under, or one the tool cannot take as given (bytes that
+    # are not UTF-8 in KESTREL_PASSWORD), never unlocks or locks anything
+    import checks_cli
+    checks_cli.tool_clause(rep, pid, tpl, seed, ["encrypt", "decrypt", "key_generate"], ["wrong_password", "non_utf8_password"], "C15_")
     return rep.finish()
